@@ -10,6 +10,7 @@ REFINES = ["Verif.Rec.refines", "Verif.Fifo.refines", "Verif.Rr.refines", "Verif
            "Verif.Tlru.refines", "Verif.Utlru.refines", "Verif.UtMap.refines"]
 REFINES_TTL = ["Verif.Tlru.refines", "Verif.Utlru.refines", "Verif.UtMap.refines"]
 LIFT = ["Verif.Refines.runA", "Verif.Core.runA_eq", "Verif.Verified.history_is_run", "Verif.Accept.accept_sound", "Verif.Accept.succ?_sound",
+        "Verif.Accept.accept_complete", "Verif.Accept.accept_soundD", "Verif.Accept.accept_complete_lax_false",
         "Verif.Refines.runA_anyclock", "Verif.Verified.history_is_run_anyclock", "Verif.tlruV_timeless", "Verif.utlruV_timeless", "Verif.lfudaV_timeless"]
 BUNDLES = ["Verif.lruV", "Verif.mruV", "Verif.fifoV", "Verif.rrV", "Verif.lfuV", "Verif.lfudaV", "Verif.tlruV",
            "Verif.utlruV", "Verif.utmapV"]
@@ -19,7 +20,7 @@ TRUSTED_BASE = [
     "the hand-written models lean/Verif/Model/*.lean as a reading of inc/cappuccino/*.hpp: checked every run by the correspondence harness (real headers, same scripts, outputs + observers + sweeps compared), to the extent of the scripts executed",
     "std::list / std::vector / std::unordered_map / std::map / std::multimap behave per their standard contracts (modelled as lists; multimap::emplace inserts after equal keys)",
     "the harness: virtual steady_clock (link-time override of steady_clock::now), pinned random_device, twin replay for sweeps of TTL containers, canonical output",
-    "the Lean driver's parser and twin comparisons (Twin.lean): executed, not proved about; the acceptor (Accept.lean) is proved sound - a log it accepts is a run of the reference semantics explaining every output, observer and sweep (Accept.accept_sound) - its completeness (no false alarm) and its attribution of a rejected event to properties are not proved",
+    "the Lean driver's parser and twin comparisons (Twin.lean): executed, not proved about; the acceptor (Accept.lean) is proved sound - a log it accepts is a run of the reference semantics explaining every output, observer and sweep (Accept.accept_sound) - and complete - it never rejects a log that the (deadline-, clear- and ttl-pinned) reference semantics explains, whatever victims were chosen, provided every inserted key is below the swept universe and ut_map/ut_set have a positive TTL (Accept.accept_complete; the excluded TTL-0 case is known finding KF1b); its attribution of a rejected event to property ids is not proved",
     "g++ 12.2 / libstdc++ 12 / ASan+UBSan+_GLIBCXX_DEBUG as the meaning of what the code does",
 ]
 
